@@ -1,6 +1,6 @@
 """C10 Trade and runner accounting follows the real state of the orders — E1 simx part."""
 from mc import core
-from props import simlife as L, c04
+from props import simlife as L, c04, livelife
 
 CLAUSES = {
     "C10.a": "live_trades = placed trades with an order not complete; trade_count = distinct trades placed",
@@ -73,11 +73,15 @@ def run(tier):
         "cool-downs are measured from the simulated clock at the placement decision and at Trade completion",
         "forced placements skip the controls and are not judged by clause c",
     ]
+    livelife.explore_live(rep, ENABLED, tier)
+    rep.engine = "E1 simx + E2 livex"
     return rep.finish()
 
 
 def replay(rep):
     c = rep["case"]
+    if "path" in c:
+        return livelife.replay_live(c, ENABLED)
     r = L.run_history(c["history"], ENABLED, c.get("cfg"))
     for d in r["violations"]:
         print(d["key"], d["detail"])
